@@ -5,6 +5,7 @@ from .. import vlib
 TRUSTED = [
     "Lean 4.33 kernel; axioms per theorem listed under coverage.axioms (subset of propext, Classical.choice, Quot.sound)",
     "translate/cellvol.py (calculateCellVol.cpp: permutation/pqr tables, C, cprod, denom -> Gen/CellVol.lean), cross-checked bit-exactly by the correspondence (grid.vol / grid.cells)",
+    "translate/gridtops.py (EclipseGrid.cpp: which layers of the TOPS vector makeZcornDzTops reads - first layer only as found, every layer with design.d/C13.tops-gap.patch - plus shape checks of the loop nest and of createTOPSVector's tolerance logic -> Gen/GridTops.lean), cross-checked by the correspondence (gridt.deck, gridt.tops)",
     "translate/gridcopy.py (EclipseGrid.cpp: what resetACTNUM()/resetACTNUM(const int*) do with active_volume, what EclipseGrid(src, zcorn, actnum) does with m_input_zcorn, shape of activeVolume/getCellVolume/save -> Gen/GridCopy.lean), cross-checked by the correspondence (grid.seq: operation sequences on one object)",
     "harness/grid.cpp + lib/vlib.py differ; model driver (compiled Lean, IEEE double, same operation order as the C++)",
     "modelled, not verified: COORD/ZCORN generation and fixupZCORN are modelled in gather form (value of entry idx; per-line running clamp) against the scatter/push_back/in-place loops of the C++ — tied by comparing the complete arrays (and cells_adjusted) bit for bit",
@@ -24,7 +25,7 @@ def run(ctx):
         "radial grids: INRAD >= 0, DRV >= 0, DTHETAV >= 0 with total <= 360 for the additivity / annulus theorems (the code throws above 360)",
         "nz >= 1 for DX/DY/DZ/TOPS input (the C++ indexes layer nz-1)",
     ]
-    ctx.stage_translate(["cellvol", "eclio", "gridcopy"])
+    ctx.stage_translate(["cellvol", "eclio", "gridcopy", "gridtops"])
     try:
         gen = open(os.path.join(vlib.LEAN, "OpmVerif", "Gen", "GridCopy.lean")).read()
         if "copyZInputZcorn : InputZcorn := .keep" in gen:
@@ -33,7 +34,12 @@ def run(ctx):
                              "the model follows the source (Props.C13.save_writes_current_geometry carries the side condition, copyZ_keep_breaks_save is the witness)")
     except OSError:
         pass
-    ctx.notes.append("observation (not recorded as a finding yet): makeZcornDzTops / makeCoordDxDyDzTops read only the first layer of the vector "
+    try:
+        every = ".everyLayer" in open(os.path.join(vlib.LEAN, "OpmVerif", "Gen", "GridTops.lean")).read().split("def zcornTopsLayers")[1]
+    except (OSError, IndexError):
+        every = False
+    if not every:
+      ctx.notes.append("observation (not recorded as a finding yet): makeZcornDzTops / makeCoordDxDyDzTops read only the first layer of the vector "
                      "createTOPSVector returns, so a gap or overlap >= 1e-6 m given in TOPS between two layers never reaches the geometry "
                      "(design.d/C13.repro_tops_gap.cpp, candidate design.d/C13.tops-gap.patch); property mode counts the affected decks/cells in "
                      "prop_stats.json (tops.gap_ignored_decks / _cells) and reports them under key grid.tops.gap_ignored once kReportTopsGap is set in harness/grid.cpp")
